@@ -153,7 +153,7 @@ pub fn check_bytes(doc: &[u8], o: &mut Outcome) -> (Option<bool>, bool) {
 /// Signature of an accepted-but-malformed document, computed from the input and rdest's result.
 fn classify_false_accept(doc: &[u8], got: &Vec<rdest::BValue>) -> String {
     // F16a: only the closing 'e's of containers open at end of input are missing
-    for k in 1..=64usize {
+    for k in 1..=doc.len() + 1 {
         let mut d = doc.to_vec();
         d.extend(std::iter::repeat(b'e').take(k));
         match rb::parse_document(&d) {
@@ -169,7 +169,7 @@ fn classify_false_accept(doc: &[u8], got: &Vec<rdest::BValue>) -> String {
     }
     // F16b: a run of zeros at end of input taken as an empty string although ':' is missing
     if doc.last().map(|b| *b == b'0').unwrap_or(false) {
-        for k in 0..=64usize {
+        for k in 0..=doc.len() + 1 {
             let mut d = doc.to_vec();
             d.push(b':');
             d.extend(std::iter::repeat(b'e').take(k));
